@@ -13,7 +13,8 @@ claim(
     "non-empty and empty node) and, for Minimize/Maximize, as equality of decision tables; the leaf merge formulas composed "
     "with themselves are associative ((a+b)+c == a+(b+c) as rational functions of the nine operand fields); children of "
     "key-addressed collections are paired by key, never by position; combining with += keeps the receiver (shared rule of "
-    "C07); a + b, += and zero() of partials reloaded from JSON keep what only ed() establishes (shared rule of C04); "
+    "C07); fill hands the caller's weight to exactly the specified slots (shared rule of C02: additivity of fill over chunks); "
+    "a + b, += and zero() of partials reloaded from JSON keep what only ed() establishes (shared rule of C04); "
     "defs.combine/increment. Necessary conditions of the property; data-dependent key sets under fill and "
     "floating-point rounding are NOT decided.",
     "Identities are over the reals; formula extraction follows the branch selected by the stated scenario (finite datum, "
@@ -31,7 +32,8 @@ claim(
     "left None, no JSON-keyed dict splatted into named parameters, numbers stored into serialised fields by _numpy passing "
     "through float()/int() (numpy integer/float32 scalars are not JSON-serialisable), and Bag's reader normalising numeric "
     "keys with the same function as the filling path, a child's name suppression being a constant that matches what the reader "
-    "passes as nameFromParent, and integer dict keys being parsed with int(text) directly (never through float). "
+    "passes as nameFromParent, integer dict keys being parsed with int(text) directly (never through float), and ed() putting no range "
+    "check on an accumulator other than entries (every state toJson can emit reloads). "
     "Bit-exact float text and equality of reloaded "
     "content for arbitrary states are NOT decided.",
     "Assumes maybeAdd adds exactly the non-None keyword pairs and hasKeys is the closed-set test its body states (its "
@@ -83,7 +85,7 @@ claim(
     "over the CFG + evaluation-order isinstance check + shape check of numeq",
     "Decides which fields == can see: every field that toJsonFragment serialises flows from both operands into a "
     "content-sensitive comparison not under `or`; iterating/sorting a dict compares keys only and does not count; zip counts "
-    "only with a length equality, and a proper slice or one attribute of a child (`self.denominator.entries`) does not count as the whole field; the quantity whose name is serialised "
+    "only with a length equality (so do elements obtained by iterating one operand only), and a proper slice or one attribute of a child (`self.denominator.entries`) does not count as the whole field; the quantity whose name is serialised "
     "takes part in == and UserFcn.__eq__ depends on name and expr on every path; NaN-initialised fields go through numeq; isinstance(other, K) precedes any read of other; "
     "__ne__ negates ==; numeq has the NaN/inf/guarded-widening-tolerance/exact-fallback shape (decision table over IEEE classes; every "
     "positive-tolerance return is the symmetric `abs(x - y) <= bound`, through tolerance-derived locals as well). Equality of clones is NOT "
@@ -96,7 +98,7 @@ claim(
     "must-dataflow of the type guard over the CFG + raising-comparison extraction + typestate for atomic rejection",
     "Decides for all 19 __add__/__iadd__: the type of `other` is established (isinstance with a failure edge that can only "
     "raise; reading an attribute does not count because Select forwards unknown attributes to its cut) before any store, child merge or construction; every structural "
-    "parameter is compared with a mismatch that raises on its own (not only together with another mismatch; scalars by value, fixed layouts by length/keys/thresholds, data-keyed "
+    "parameter is compared with a mismatch that raises on its own (not only together with another mismatch, on a path that every normal return passes; scalars by value, fixed layouts by length/keys/thresholds, data-keyed "
     "containers by declared content type, which must survive zero/+/* in reloaded form - shared rule of C04); and that += "
     "changes no state before an operation that can still reject - the "
     "last clause fails on the 12 container classes, which are recorded as known findings. Run-time behaviour on concrete "
@@ -112,7 +114,8 @@ claim(
     "attribute __init__ sets; a rebuilt function gets a namespace of its own and the module's globals() are never written; every "
     "self.x in the pickling helpers resolves; Select.__getattr__ cannot recurse; the globals shipped with a function quantity are selected "
     "by membership only; the branches of Bin/CentrallyBin/Count._numpy selected by `transform is identity` (the unpickled clone takes the "
-    "general one) have the same effect (shared rules of C03). Fidelity of "
+    "general one) have the same effect (shared rules of C03); UserFcn.__eq__ compares function quantities by code and names only (values whose == "
+    "survives a copy); a string quantity keeps no per-record state in its unpickled closure (shared rule of C17). Fidelity of "
     "marshal-ed code and liveness/equality of the clone are NOT decided.",
     "pickle's protocol itself is trusted.",
     "DESIGN.md section 3, C11",
@@ -123,7 +126,7 @@ claim(
     "Decides the ordering clause on every path of all 19 fill(): after the node's own state changed, no user function, "
     "child fill, raising helper, explicit raise, computed index or operation on a not-yet-validated user value can follow; "
     "single-path containers fill at most one child per path (induction step for ancestors); the repository's own rollback "
-    "marker comment never follows an own-state store; conversion helpers that fill relies on as validators let the conversion error escape; a string quantity is evaluated in a namespace built for the record alone (shared rule of C17). Run-time exception behaviour is NOT executed; numpy paths are outside "
+    "marker comment never follows an own-state store; conversion helpers that fill relies on as validators let the conversion error escape; a string quantity is evaluated in a namespace built for the record alone and a cached quantity that raises leaves no memo behind (shared rules of C17). Run-time exception behaviour is NOT executed; numpy paths are outside "
     "the property.",
     "A user value counts as validated only by an isinstance test against numbers.Real or narrower (or a string type): "
     "math.isnan/isinf, arithmetic and comparisons on a validated numbers.Real, and membership/store on the node's own dict "
@@ -142,7 +145,8 @@ claim(
     "from the class's own index methods, never from inline arithmetic on the query; views have no store effect on the "
     "histogram and projections are built from fresh counters (shared rules of C06); the four accessors decide the end-of-range "
     "correction with one predicate; grid cells are addressed by positions of a dense index range or by lookup in the axis' key list; no view "
-    "takes the length of an array from np.arange over float arguments. Sub-range numerics (rounding, arange "
+    "takes the length of an array from np.arange over float arguments; the accessors return an empty result for the same out-of-domain queries; an "
+    "edge `i * width + origin` takes width and origin from one histogram. Sub-range numerics (rounding, arange "
     "lengths) and mpv are NOT decided.",
     "IrregularlyBin.fill routes inline, so there is no shared routing function to compare with for that class.",
     "DESIGN.md section 3, C13",
@@ -155,7 +159,7 @@ claim(
     "get_features_specs whole (not through a filtering comprehension) and make_histograms forwards its specification parameters; every "
     "nesting primitive built in get_hist_bin receives the histogram built so far and the axis' quantity; every bin-spec key set produced anywhere "
     "is accepted by a branch of get_hist_bin; _fill_histogram fills through hist.fill.numpy; given specs are never overwritten; a "
-    "function that takes an axis index reads its column list with that index; no freshly indexed Series is assigned into the frame. The homomorphism over row chunks, "
+    "function that takes an axis index reads its column list with that index; no freshly indexed Series is assigned into the frame; the timestamp converter to_ns returns an integer on every path. The homomorphism over row chunks, "
     "dtype inference and quantiles are run-time and NOT decided.",
     "Only the pandas filler is followed (spark is not importable here and is outside the property's environment).",
     "DESIGN.md section 3, C14",
@@ -168,7 +172,7 @@ claim(
     "value from a previous loop iteration reaches a use, every non-raising path through a builder loop stores the "
     "element, every hasKeys gate is closed and its failure edge can only raise, no fall-through return, no exception "
     "built without raise, every JSON value is used only under a type validation that agrees with the use, ed() "
-    "re-validates ranges, header/version/unknown-type gates raise, every child fragment is parsed by the factory of its own "
+    "re-validates ranges, header/version/unknown-type gates raise and the version gate is monotone in the document's version, every key that is read reaches the field it was written from (shared rule of C04), every child fragment is parsed by the factory of its own "
     "type tag (shared rule of C04). This is the structural clause of the property "
     "(every failed validation ends in raise; nothing dropped, duplicated or defaulted); behaviour of fromJson on "
     "concrete documents is not executed.",
@@ -183,7 +187,7 @@ claim(
     "`children` reads every stored slot fill/_numpy fill; in the walk the identity test and raise must not be "
     "control-dependent on the once-only flag the same traversal sets - this last clause fails on today's tree and is "
     "recorded as a known finding; the once-only flag is stored after the recursion into the children; outside the _numpy methods every "
-    "use of `<x>._numpy` is dominated by a call of the walk. Detection on concrete trees is NOT executed.",
+    "use of `<x>._numpy` is dominated by a call of the walk; the flag is not stored on the failure path; `children` lists every filled slot on every branch. Detection on concrete trees is NOT executed.",
     "none beyond the class model.",
     "DESIGN.md section 3, C16",
 )
@@ -196,7 +200,8 @@ claim(
     "first, a second explicit name raises while a default name derived by the constructor does not block a first one; the memo "
     "key is stored only after the wrapped call returned; UserFcn.__call__ compiles once, passes arguments through, evaluates in a "
     "namespace that is fresh per call and in which the record's fields take precedence over pre-loaded names, and discovers the free "
-    "variable of a bare-datum expression as exactly (names of the code object) minus (names the namespace provides). What string expressions "
+    "variable of a bare-datum expression as exactly (names of the code object) minus (names the namespace provides), and takes a record's fields unfiltered; "
+    "the wrapper functions never assign attributes of the wrapper they are given. What string expressions "
     "evaluate to is NOT decided.",
     "none beyond the class model.",
     "DESIGN.md section 3, C17",
@@ -210,7 +215,7 @@ claim(
     "1-3 thresholds/centres quick, 0-5 thorough) equals the specified table; the generic-case accumulator updates equal the "
     "specified functions as rational functions; Minimize/Maximize follow the min/max-ignoring-NaN decision table; a float-class "
     "interpretation of Average.fill and Deviate.fill over (empty|finite|+inf|-inf|NaN state) x (finite|+inf|-inf|NaN datum) "
-    "yields the IEEE class of the weighted mean/variance of those data (opposite infinities -> NaN). Every statement of every fill must be reached by some scenario. NOT decided: "
+    "yields the IEEE class of the weighted mean/variance of those data (opposite infinities -> NaN); every child fill is handed the caller's datum itself; the index formula of bin() inverts the edge function of range() (rational identity). Every statement of every fill must be reached by some scenario. NOT decided: "
     "that the opaque in-range index arithmetic picks the numerically right bucket for every float; floating-point summation "
     "order; what user functions return.",
     "Exact abstraction for comparison-only code (two data in one region take the same path). Library summaries are listed in "
@@ -231,7 +236,8 @@ claim(
     "increment) x (number of rows) on every branch; Stack is also checked with descending thresholds; the expression that reaches np.floor "
     "in Bin/SparselyBin._numpy is the expression under math.floor in the scalar index method up to commutativity of + and * only (same "
     "rounding); numpy.average over a batch is guarded by a test that implies a positive batch weight (linear forms over prior entries and "
-    "batch weight); a Count child is handed the batch only once the batch length is known (the shared shape cell is modelled). One known "
+    "batch weight); a Count child is handed the batch only once the batch length is known (the shared shape cell is modelled); every child "
+    "_numpy is handed the caller's data (or None for a pre-summed Count, or a row selection of it). One known "
     "finding (Sum masks NaN rows). NOT decided: equality of floating-point reductions, key creation order, negative weights.",
     "numpy/bisect library summaries (np.histogram edge conventions, np.unique partition, int64 cast of NaN/inf) are stated "
     "assumptions; every numpy operation used must be in the closed vocabulary (else ANALYSIS-ERROR).",
